@@ -8,6 +8,7 @@ package redblacktree
 //@ -- position pos and the interval [a,b] of positions occupied by its subtree; per key its position (rank)
 //@ ghost field Tree.nodes map like Root
 //@ ghost field Tree.rank mapfrom Comparator int
+//@ ghost field Tree.n int
 //@ ghost field Node.tr ref
 //@ ghost field Node.pos int
 //@ ghost field Node.a int
@@ -17,21 +18,24 @@ package redblacktree
 //@ pred SWO(c, w) := (forall x like w, y like w :: (c(x, y) < 0 <==> c(y, x) > 0))
 //@     && (forall x like w, y like w, z like w :: c(x, y) <= 0 && c(y, z) <= 0 ==> c(x, z) <= 0)
 
-//@ -- local shape condition of node x of tree t (intrinsic definition: no recursion, no reachability)
-//@ pred LC(t, x) := x.tr == t ==> x != nil && x.a <= x.pos && x.pos <= x.b && 0 <= x.pos && x.pos < t.size && t.nodes[x.pos] == x
+//@ -- local shape condition of node x of tree t (intrinsic definition: no recursion, no reachability); t.n is the ghost
+//@ -- node count, equal to t.size outside Put/Remove (which update size last)
+//@ pred LC(t, x) := x.tr == t ==> x != nil && x.a <= x.pos && x.pos <= x.b && 0 <= x.pos && x.pos < t.n && t.nodes[x.pos] == x
 //@     && (x.Left == nil ==> x.a == x.pos) && (x.Left != nil ==> x.Left.tr == t && x.Left.Parent == x && x.Left.a == x.a && x.Left.b == x.pos - 1)
 //@     && (x.Right == nil ==> x.b == x.pos) && (x.Right != nil ==> x.Right.tr == t && x.Right.Parent == x && x.Right.a == x.pos + 1 && x.Right.b == x.b)
-//@     && (x.Parent == nil ==> x == t.Root && x.a == 0 && x.b == t.size - 1)
+//@     && (x.Parent == nil ==> x == t.Root && x.a == 0 && x.b == t.n - 1)
 //@     && (x.Parent != nil ==> x.Parent.tr == t && (x.Parent.Left == x || x.Parent.Right == x))
-//@ pred ShapeInv(t) := t != nil && t.size >= 0 && (t.size == 0 <==> t.Root == nil) && (t.Root != nil ==> t.Root.tr == t && t.Root.Parent == nil)
+//@ pred Shape(t) := t != nil && t.n >= 0 && (t.n == 0 <==> t.Root == nil) && (t.Root != nil ==> t.Root.tr == t && t.Root.Parent == nil)
 //@     && (forall x like t.Root :: LC(t, x))
-//@     && (forall i :: 0 <= i && i < t.size ==> t.nodes[i].tr == t && t.nodes[i].pos == i)
+//@     && (forall i :: 0 <= i && i < t.n ==> t.nodes[i].tr == t && t.nodes[i].pos == i)
+//@ pred ShapeInv(t) := Shape(t) && t.size == t.n
 //@ -- keys strictly ascending in in-order; rank maps every key equivalent to a stored key to that key's position
 //@ pred KeyAt(t, i) := t.nodes[i].Key
 //@ pred OrderInv(t) := t.Comparator != nil && SWO(t.Comparator, argof(t.Comparator, 0))
 //@     && (forall i, j :: 0 <= i && i < j && j < t.size ==> t.Comparator(t.nodes[i].Key, t.nodes[j].Key) < 0)
 //@     && (forall k like argof(t.Comparator, 0), i :: 0 <= i && i < t.size && t.Comparator(k, t.nodes[i].Key) == 0 ==> t.rank[k] == i)
-//@ pred Inv(t) := ShapeInv(t) && OrderInv(t)
+//@ pred RootBlack(t) := t.Root != nil ==> t.Root.color
+//@ pred Inv(t) := ShapeInv(t) && OrderInv(t) && RootBlack(t)
 //@ -- abstract view: the ascending entry sequence (KeyAt(i), ValAt(i)), and the finite map Has/Val it denotes
 //@ pred ValAt(t, i) := t.nodes[i].Value
 //@ pred Has(t, k) := 0 <= t.rank[k] && t.rank[k] < t.size && t.Comparator(k, t.nodes[t.rank[k]].Key) == 0
@@ -40,6 +44,7 @@ package redblacktree
 //@ func NewWith
 //@   requires comparator != nil && SWO(comparator, argof(comparator, 0))
 //@   modifies nothing
+//@   at exit: result.n := 0
 //@   ensures [C01 C02 C15 C17] fresh(result) && Inv(result) && result.size == 0 && result.Comparator == comparator
 
 //@ func Tree.lookup
@@ -76,8 +81,9 @@ package redblacktree
 
 //@ func Tree.Clear
 //@   requires tree != nil && tree.Comparator != nil && SWO(tree.Comparator, argof(tree.Comparator, 0))
-//@   modifies tree.Root, tree.size
+//@   modifies tree.Root, tree.size, tree.n
 //@   modifies each x like tree.Root where x.tr == tree : x.tr
+//@   at exit: tree.n := 0
 //@   at exit: all Node.tr := \x like tree.Root => ite(x.tr == tree, nil, x.tr)
 //@   ensures [C01 C15 C17] Inv(tree) && tree.size == 0 && tree.Comparator == old(tree.Comparator)
 
@@ -235,3 +241,128 @@ package redblacktree
 //@     invariant ItInv(iterator) && Cur(iterator) <= old(Cur(iterator))
 //@     invariant forall j :: Cur(iterator) <= j && j < old(Cur(iterator)) && 0 <= j ==> !f(KeyAt(iterator.tree, j), ValAt(iterator.tree, j))
 //@     decreases Cur(iterator) + 1
+
+
+// ---- mutators: shape / order / view layer (DESIGN.md §4 C01) ----
+
+//@ func nodeColor
+//@   inline
+//@ func Node.grandparent
+//@   inline
+//@ func Node.uncle
+//@   inline
+//@ func Node.sibling
+//@   inline
+//@ func Tree.replaceNode
+//@   inline
+
+//@ -- what a restructuring step leaves alone: the node sequence, positions, entries, sizes, configuration
+//@ pred Same(t) := t.n == old(t.n) && t.nodes == old(t.nodes) && t.size == old(t.size) && t.Comparator == old(t.Comparator) && t.rank == old(t.rank)
+//@     && (forall x like t.Root :: x.tr == old(x.tr) && x.pos == old(x.pos) && x.Key == old(x.Key) && x.Value == old(x.Value))
+//@ pred SameColours(t) := forall x like t.Root :: x.color == old(x.color)
+
+//@ func Tree.rotateLeft
+//@   requires Shape(tree) && node.tr == tree && node.Right != nil
+//@   modifies tree.Root
+//@   modifies each x like tree.Root where x.tr == tree : x.Left, x.Right, x.Parent, x.a, x.b
+//@   at exit: old(node.Right).a := old(node.a)
+//@   at exit: node.b := old(node.Right.pos) - 1
+//@   ensures Shape(tree) && Same(tree) && SameColours(tree)
+//@   ensures old(node.Right).Left == node && node.Parent == old(node.Right) && old(node.Right).Parent == old(node.Parent) && node.Right == old(node.Right.Left)
+//@     && node.Left == old(node.Left) && old(node.Right).Right == old(node.Right.Right)
+//@   ensures (old(node.Parent) == nil ==> tree.Root == old(node.Right)) && (old(node.Parent) != nil ==> tree.Root == old(tree.Root))
+//@   ensures others: forall x like tree.Root :: x != node && x != old(node.Right) ==> (x != old(node.Parent) ==> x.Left == old(x.Left) && x.Right == old(x.Right)) && (x != old(node.Right.Left) ==> x.Parent == old(x.Parent))
+//@   ensures parent: old(node.Parent) != nil ==> (old(node.Parent.Left) == node ==> old(node.Parent).Left == old(node.Right) && old(node.Parent).Right == old(node.Parent.Right))
+//@     && (old(node.Parent.Left) != node ==> old(node.Parent).Right == old(node.Right) && old(node.Parent).Left == old(node.Parent.Left))
+
+//@ func Tree.rotateRight
+//@   requires Shape(tree) && node.tr == tree && node.Left != nil
+//@   modifies tree.Root
+//@   modifies each x like tree.Root where x.tr == tree : x.Left, x.Right, x.Parent, x.a, x.b
+//@   at exit: old(node.Left).b := old(node.b)
+//@   at exit: node.a := old(node.Left.pos) + 1
+//@   ensures Shape(tree) && Same(tree) && SameColours(tree)
+//@   ensures old(node.Left).Right == node && node.Parent == old(node.Left) && old(node.Left).Parent == old(node.Parent) && node.Left == old(node.Left.Right)
+//@     && node.Right == old(node.Right) && old(node.Left).Left == old(node.Left.Left)
+//@   ensures (old(node.Parent) == nil ==> tree.Root == old(node.Left)) && (old(node.Parent) != nil ==> tree.Root == old(tree.Root))
+//@   ensures others: forall x like tree.Root :: x != node && x != old(node.Left) ==> (x != old(node.Parent) ==> x.Left == old(x.Left) && x.Right == old(x.Right)) && (x != old(node.Left.Right) ==> x.Parent == old(x.Parent))
+//@   ensures parent: old(node.Parent) != nil ==> (old(node.Parent.Left) == node ==> old(node.Parent).Left == old(node.Left) && old(node.Parent).Right == old(node.Parent.Right))
+//@     && (old(node.Parent.Left) != node ==> old(node.Parent).Right == old(node.Left) && old(node.Parent).Left == old(node.Parent.Left))
+
+// ---- insertion fix-up: keeps shape, sequence and entries; re-establishes a black root ----
+
+//@ -- modifies clause shared by the fix-up steps
+//@ func Tree.insertCase1
+//@   requires Shape(tree) && node.tr == tree && (node.Parent != nil ==> tree.Root.color)
+//@   modifies tree.Root
+//@   modifies each x like tree.Root where x.tr == tree : x.Left, x.Right, x.Parent, x.a, x.b, x.color
+//@   ensures Shape(tree) && Same(tree) && RootBlack(tree)
+
+//@ func Tree.insertCase2
+//@   requires Shape(tree) && node.tr == tree && node.Parent != nil && tree.Root.color
+//@   modifies tree.Root
+//@   modifies each x like tree.Root where x.tr == tree : x.Left, x.Right, x.Parent, x.a, x.b, x.color
+//@   ensures Shape(tree) && Same(tree) && RootBlack(tree)
+
+//@ func Tree.insertCase3
+//@   requires Shape(tree) && node.tr == tree && node.Parent != nil && !node.Parent.color && tree.Root.color
+//@   modifies tree.Root
+//@   modifies each x like tree.Root where x.tr == tree : x.Left, x.Right, x.Parent, x.a, x.b, x.color
+//@   ensures Shape(tree) && Same(tree) && RootBlack(tree)
+
+//@ func Tree.insertCase4
+//@   requires Shape(tree) && node.tr == tree && node.Parent != nil && !node.Parent.color && tree.Root.color
+//@   modifies tree.Root
+//@   modifies each x like tree.Root where x.tr == tree : x.Left, x.Right, x.Parent, x.a, x.b, x.color
+//@   ensures Shape(tree) && Same(tree) && RootBlack(tree)
+
+//@ func Tree.insertCase5
+//@   requires Shape(tree) && node.tr == tree && node.Parent != nil && node.Parent.Parent != nil && tree.Root.color
+//@   requires (node == node.Parent.Left && node.Parent == node.Parent.Parent.Left) || (node == node.Parent.Right && node.Parent == node.Parent.Parent.Right)
+//@   modifies tree.Root
+//@   modifies each x like tree.Root where x.tr == tree : x.Left, x.Right, x.Parent, x.a, x.b, x.color
+//@   ensures Shape(tree) && Same(tree) && RootBlack(tree)
+
+//@ -- Put: insert or replace. pnew (ghost result) is the position of the entry for `key` afterwards.
+//@ func Tree.Put
+//@   requires Inv(tree)
+//@   modifies tree.Root, tree.size, tree.n, tree.nodes, tree.rank
+//@   modifies each x like tree.Root where x.tr == tree : x.Left, x.Right, x.Parent, x.a, x.b, x.color, x.Key, x.Value, x.pos
+//@   ghostvar pnew := 0
+//@   ghostvar qpos := 0
+//@   ghostresult pnew int
+//@   at before insertCase1#1: pnew := ite(arg1.Parent == nil, 0, ite(arg1.Parent.Left == arg1, arg1.Parent.pos, arg1.Parent.pos + 1))
+//@   at before insertCase1#1: qpos := arg1.Parent.pos
+//@   at before insertCase1#1: all Node.pos := \x like tree.Root => ite(x.tr == tree && old(x.pos) >= pnew, old(x.pos) + 1, x.pos)
+//@   at before insertCase1#1: all Node.a := \x like tree.Root => ite(x.tr == tree && !(old(x.a) <= qpos && qpos <= old(x.b)) && old(x.a) >= pnew, old(x.a) + 1, x.a)
+//@   at before insertCase1#1: all Node.b := \x like tree.Root => ite(x.tr == tree && ((old(x.a) <= qpos && qpos <= old(x.b)) || old(x.b) >= pnew), old(x.b) + 1, x.b)
+//@   at before insertCase1#1: arg1.tr := tree
+//@   at before insertCase1#1: arg1.pos := pnew
+//@   at before insertCase1#1: arg1.a := pnew
+//@   at before insertCase1#1: arg1.b := pnew
+//@   at before insertCase1#1: tree.nodes := \i => ite(i < pnew, old(tree.nodes[i]), ite(i == pnew, arg1, old(tree.nodes[i-1])))
+//@   at before insertCase1#1: tree.n := old(tree.n) + 1
+//@   at before insertCase1#1: tree.rank := \k like key => ite(tree.Comparator(k, key) == 0, pnew, ite(old(tree.rank[k]) >= pnew, old(tree.rank[k]) + 1, old(tree.rank[k])))
+//@   at exit: if old(Has(tree, key)) then pnew := old(tree.rank[key])
+//@   ensures [C01 C02 C17] Inv(tree) && tree.Comparator == old(tree.Comparator)
+//@   ensures [C01 C02] at: 0 <= pnew && pnew < tree.size && tree.Comparator(key, KeyAt(tree, pnew)) == 0 && ValAt(tree, pnew) == value && tree.rank[key] == pnew
+//@   ensures [C01 C02] replaced: old(Has(tree, key)) ==> tree.size == old(tree.size) && tree.nodes == old(tree.nodes) && tree.rank == old(tree.rank)
+//@     && (forall i :: 0 <= i && i < tree.size && i != pnew ==> KeyAt(tree, i) == old(KeyAt(tree, i)) && ValAt(tree, i) == old(ValAt(tree, i)))
+//@   ensures [C01 C02] inserted: !old(Has(tree, key)) ==> tree.size == old(tree.size) + 1 && fresh(tree.nodes[pnew])
+//@     && (forall i :: 0 <= i && i < pnew ==> tree.nodes[i] == old(tree.nodes[i]) && KeyAt(tree, i) == old(KeyAt(tree, i)) && ValAt(tree, i) == old(ValAt(tree, i)))
+//@     && (forall i :: pnew < i && i < tree.size ==> tree.nodes[i] == old(tree.nodes[i-1]) && KeyAt(tree, i) == old(KeyAt(tree, i-1)) && ValAt(tree, i) == old(ValAt(tree, i-1)))
+//@   ensures [C01] map: forall k like key :: (Has(tree, k) <==> old(Has(tree, k)) || tree.Comparator(k, key) == 0)
+//@     && (tree.Comparator(k, key) == 0 ==> Val(tree, k) == value) && (tree.Comparator(k, key) != 0 && old(Has(tree, k)) ==> Val(tree, k) == old(Val(tree, k)))
+//@   loop 1:
+//@     invariant (loop ==> Inv(tree)) && tree.Comparator == old(tree.Comparator) && tree.size == old(tree.size) && tree.n == old(tree.n) && tree.nodes == old(tree.nodes) && tree.rank == old(tree.rank) && tree.Root == old(tree.Root) && tree.Root != nil
+//@     invariant forall x like tree.Root :: !fresh(x) ==> x.Key == old(x.Key) && x.Value == old(x.Value) && x.color == old(x.color) && x.Parent == old(x.Parent) && x.tr == old(x.tr) && x.pos == old(x.pos) && x.a == old(x.a) && x.b == old(x.b)
+//@       && (x != node || loop ==> x.Left == old(x.Left) && x.Right == old(x.Right))
+//@     invariant node != nil && node.tr == tree && !fresh(node)
+//@     invariant forall x like tree.Root :: fresh(x) ==> x.tr != tree
+//@     invariant forall i :: 0 <= i && i < node.a ==> tree.Comparator(key, tree.nodes[i].Key) > 0
+//@     invariant forall i :: node.b < i && i < tree.size ==> tree.Comparator(key, tree.nodes[i].Key) < 0
+//@     invariant !loop ==> fresh(insertedNode) && insertedNode != nil && insertedNode.Key == key && insertedNode.Value == value && !insertedNode.color && insertedNode.Left == nil && insertedNode.Right == nil && insertedNode.Parent == nil
+//@       && insertedNode.tr == nil
+//@     invariant !loop ==> (node.Left == insertedNode && old(node.Left) == nil && node.Right == old(node.Right) && tree.Comparator(key, node.Key) < 0)
+//@       || (node.Right == insertedNode && old(node.Right) == nil && node.Left == old(node.Left) && tree.Comparator(key, node.Key) > 0)
+//@     decreases ite(loop, node.b - node.a + 2, 0)
